@@ -24,7 +24,9 @@ Scalar(z) == [shape |-> <<1, 1>>, vals |-> <<z>>]
 Lat(L, bc, mps, t, cells) == [name |-> "Chain", Lx |-> L, Ly |-> 1, bcx |-> bc, bcy |-> "open", mps |-> mps, uc |-> <<t>>, cells |-> cells,
                               shift |-> 0]
 ConfigsQuick == {Lat(4, "open", "finite", "spin", 1), Lat(3, "open", "finite", "fermion", 1),
-                 Lat(2, "periodic", "infinite", "spin", 2), Lat(1, "periodic", "infinite", "spin", 4)}
+                 Lat(2, "periodic", "infinite", "spin", 2), Lat(1, "periodic", "infinite", "spin", 4),
+                 \* 64 states: only pairs, sums and the equality / Hermiticity tests (Big below)
+                 Lat(2, "periodic", "infinite", "spin", 3)}
 ConfigsOne == {Lat(3, "open", "finite", "fermion", 1)}
 ConfigsTwo == {Lat(3, "open", "finite", "spin", 1), Lat(2, "periodic", "infinite", "spin", 2)}
 ConfigsFull == ConfigsQuick \cup {Lat(3, "open", "finite", "spin", 1), Lat(4, "periodic", "finite", "fermion", 1),
@@ -40,7 +42,10 @@ Multi3(z, o1, o2, o3, hc) == [kind |-> "multi", s |-> Scalar(z), str |-> "auto",
 \* Hermitian and non-Hermitian ones (complex strength, missing conjugate), on-site only, diagonal.
 \* range of the "long-range" coupling in which two otherwise equal operators differ; for the one-site infinite unit cell
 \* it does not fit into the L + 2 * max_range sites the shorter-range operator alone would look at
-FarRange(c) == IF Infinite(c) /\ NCell(c) = 1 THEN 3 ELSE IF Sx(c) >= 3 THEN 2 ELSE 1
+\* L = 2, window of 3 cells: range 4 spans 5 sites, more than L + 2 r = 4 (r = 1 the known range of the other operand) but
+\* within the documented default window L + 2 L = 6 for an operand of unknown range
+FarRange(c) == IF Infinite(c) /\ NCell(c) = 1 THEN 3 ELSE IF Infinite(c) /\ c.cells >= 3 THEN 4 ELSE IF Sx(c) >= 3 THEN 2 ELSE 1
+Big == cfg # NoCfg /\ Size(DimsOf(TypesOf(cfg))) > 32
 CatalogueAll(c) ==
     LET t == c.uc[1]
         far == FarRange(c)
@@ -145,7 +150,7 @@ Setup == cfg = NoCfg /\ \E c \in Configs : cfg' = c /\ UNCHANGED <<A, B, last, n
 \* build an MPO from a declaration list; markers: "all" = IdL/IdR known on every bond and the range known (built from
 \* terms), "wt" = the same W tensors handed to the MPO constructor with all markers but max_range = None,
 \* "ends" = markers only at the two ends and max_range = None
-Make == cfg # NoCfg /\ \E s \in {"A", "B"}, ds \in Catalogue(cfg) : \E mk \in (IF s = "A" THEN {"all", "ends"} ELSE {"all", "wt"}) :
+Make == cfg # NoCfg /\ ~Big /\ \E s \in {"A", "B"}, ds \in Catalogue(cfg) : \E mk \in (IF s = "A" THEN {"all", "ends"} ELSE {"all", "wt"}) :
             SetSlot(s, Slot(ds, OpOf(cfg, ds), mk, mk = "all", MaxTermRange(cfg, ds)),
                     [op |-> "make", s |-> s, decls |-> ds, markers |-> mk])
 
@@ -166,11 +171,12 @@ MakePair == cfg # NoCfg /\ A = Empty /\ B = Empty /\ \E da, db \in PairOps(cfg),
          Slot(da, OpOf(cfg, da), "all", TRUE, MaxTermRange(cfg, da)), Slot(db, OpOf(cfg, db), mkB, mkB = "all", MaxTermRange(cfg, db)))
 
 Add == Filled("A") /\ Filled("B") /\ AllMarkers("A") /\ AllMarkers("B") /\ \E s \in {"A", "B"} :
-           SetSlot(s, Slot(<<>>, EvalMat(MAdd(A.m, B.m)), "all", A.rk /\ B.rk, IMax2(A.tr, B.tr)), [op |-> "add", s |-> s])
+           SetSlot(s, Slot(IF A.decls # <<>> /\ B.decls # <<>> THEN A.decls \o B.decls ELSE <<>>,    \* the terms of a sum
+                           EvalMat(MAdd(A.m, B.m)), "all", A.rk /\ B.rk, IMax2(A.tr, B.tr)), [op |-> "add", s |-> s])
 
-Dagger == \E s \in {"A", "B"} : Filled(s) /\ SetSlot(s, Slot(<<>>, EvalMat(MDagger(Get(s).m)), Get(s).mk, Get(s).rk, Get(s).tr), [op |-> "dagger", s |-> s])
+Dagger == ~Big /\ \E s \in {"A", "B"} : Filled(s) /\ SetSlot(s, Slot(<<>>, EvalMat(MDagger(Get(s).m)), Get(s).mk, Get(s).rk, Get(s).tr), [op |-> "dagger", s |-> s])
 
-PlusIdentity == cfg # NoCfg /\ ~Infinite(cfg) /\ \E s \in {"A", "B"}, al \in {<<0, 0>>, <<1, 0>>, <<0, -2>>}, be \in {<<1, 0>>, <<0, 1>>, <<-2, 0>>} :
+PlusIdentity == cfg # NoCfg /\ ~Big /\ ~Infinite(cfg) /\ \E s \in {"A", "B"}, al \in {<<0, 0>>, <<1, 0>>, <<0, -2>>}, be \in {<<1, 0>>, <<0, 1>>, <<-2, 0>>} :
     \* the result is a valid MPO for measurements and apply, but its IdL -> IdL entry is scaled (documented structure
     \* [beta*1  beta*C  alpha*1+beta*D]): marked "scaled"; only plus_identity itself is applied to it again
     Filled(s) /\ Get(s).mk \in {"all", "scaled"} /\ SetSlot(s, Slot(<<>>, EvalMat(MAdd(MScale(al, MId(D(cfg))), MScale(be, Get(s).m))), "scaled", Get(s).rk, Get(s).tr),
@@ -178,7 +184,7 @@ PlusIdentity == cfg # NoCfg /\ ~Infinite(cfg) /\ \E s \in {"A", "B"}, al \in {<<
 
 \* representation changes: the operator stays the same
 Represent == \E s \in {"A", "B"}, how \in {"sort_legcharges", "group_sites", "termlist_roundtrip", "termlist_roundtrip_rev", "copy"} :
-    /\ Filled(s) /\ (how = "group_sites" => NCell(cfg) % 2 = 0) /\ (how # "copy" => AllMarkers(s))
+    /\ ~Big /\ Filled(s) /\ (how = "group_sites" => NCell(cfg) % 2 = 0) /\ (how # "copy" => AllMarkers(s))
     \* to_TermList(start = all sites, in ascending resp. descending order) followed by from_term_list
     /\ (how \in {"termlist_roundtrip", "termlist_roundtrip_rev"} => cfg.uc[1] = "spin")
     \* an MPO rebuilt from its term list knows its range again; sort_legcharges keeps the markers but we treat the result
@@ -248,7 +254,25 @@ QUII == \E s \in {"A", "B"} : Filled(s) /\ AllMarkers(s) /\ Get(s).decls # <<>> 
     (dt = <<0, 0>> \/ (OnsiteOnly(Get(s).decls) /\ IsDiagonal(Get(s).m))) /\
     Step([op |-> "make_U_II", s |-> s, dt |-> dt, diag |-> [r \in 1..D(cfg) |-> Get(s).m[r][r]]], A, B)
 
-Next == Setup \/ Make \/ MakePair \/ Add \/ Dagger \/ PlusIdentity \/ Represent \/ QHermitian \/ QEqual \/ QOverlap \/ QExpect \/ QApply
+\* MPO.prefactor(i, ops): the coefficient of the operator string ops (on sites i, i+1, ...; identities elsewhere) in the
+\* operator, w.r.t. the product basis of mutually orthogonal local operators: tr(S^dagger H) / tr(S^dagger S)
+PrefStrings(c) == IF c.uc[1] = "spin"
+                  THEN {<<"Sp", "Sm">>, <<"Sm", "Sp">>, <<"Sigmaz", "Sigmaz">>, <<"Sp">>, <<"Sigmaz">>, <<"Sp", "Sigmaz", "Sm">>, <<"Sigmaz", "Id", "Sigmaz">>}
+                  ELSE IF c.uc[1] = "fermion" THEN {<<"Cd", "C">>, <<"C", "Cd">>, <<"Cd", "JW", "C">>, <<"C", "JW", "Cd">>}
+                  ELSE {<<"Bd", "B">>, <<"B", "Bd">>}
+StringOp(c, i, ops) == DenseOfTerms(TypesOf(c), <<[c |-> GOne, raw |-> TRUE, ops |-> [k \in 1..Len(ops) |-> <<ops[k], i + k - 1>>]]>>)
+MInner(X, Y) == GSumFn([r \in 1..NRows(X) |-> GSumFn([q \in 1..NCols(X) |-> GMul(GConj(X[r][q]), Y[r][q])], NCols(X))], NRows(X))
+QPrefactor == ~Big /\ \E s \in {"A", "B"} : Filled(s) /\ \E ops \in PrefStrings(cfg), i \in {0, 1} :
+    /\ i + Len(ops) <= NW(cfg) /\ i < NCell(cfg)
+    /\ LET S == StringOp(cfg, i, ops)
+       IN Step([op |-> "prefactor", s |-> s, i |-> i, ops |-> ops, num |-> MInner(S, Get(s).m), den |-> Re(MInner(S, S))], A, B)
+
+\* make_U_II is second order in dt for every direction of dt in the complex plane (real time, imaginary time with either
+\* sign, complex): the central difference (U_II(ph*h) - U_II(-ph*h)) / (2 ph h) equals H up to O(h^2); h = 2^-k
+QUIIOrder == ~Big /\ \E s \in {"A", "B"} : Filled(s) /\ AllMarkers(s) /\ Get(s).decls # <<>> /\ ~Infinite(cfg) /\
+    \E ph \in {<<1, 0>>, <<-1, 0>>, <<0, -1>>, <<1, -1>>} : Step([op |-> "make_U_II_order", s |-> s, ph |-> ph, k |-> 6], A, B)
+
+Next == Setup \/ QPrefactor \/ QUIIOrder \/ Make \/ MakePair \/ Add \/ Dagger \/ PlusIdentity \/ Represent \/ QHermitian \/ QEqual \/ QOverlap \/ QExpect \/ QApply
         \/ QUI \/ QUII
 Spec == Init /\ [][Next]_vars
 
